@@ -33,10 +33,10 @@ func specIsValidIngress(v map[string]bool) bool {
 
 var isValidIngressAtoms = matchers{
 	"watch":      has("WatchIngressWithoutClass"),
-	"hasAnn":     has(`Annotations["kubernetes.io/ingress.class"],ok#1`, "!=="),
+	"hasAnn":     has(`Annotations["kubernetes.io/ingress.class"],ok#1`, "~=="),
 	"annEq":      has(`Annotations["kubernetes.io/ingress.class"],ok#0 == `, ".IngressClass)"),
 	"hasClass":   has("(ing.Spec.IngressClassName != nil)"),
-	"classFound": has("GetIngressClass(", "#0 != nil)", "!IsValidIngressClass"),
+	"classFound": has("GetIngressClass(", "#0 != nil)", "~IsValidIngressClass"),
 	"classOurs":  has("IsValidIngressClass(", "GetIngressClass(", "#0)"),
 	"precedence": has("IngressClassPrecedence"),
 }
